@@ -1,10 +1,10 @@
 (* C17 - Totals are symmetric under negation and independent of line order.
-   Property theorems only (proofs in Calc/NegProofs.v, Calc/PermProofs.v, Calc/PermTaxProofs.v); vocabulary in
-   Calc/Symmetry.v (neg_doc, invert_doc, invert, remove_included_taxes, as_input) and
+   Property theorems only (proofs in Calc/NegProofs.v, Calc/PermProofs.v, Calc/PermTaxProofs.v, Calc/RitProofs.v); vocabulary in
+   Calc/Symmetry.v (neg_doc, invert_doc, invert, remove_included_taxes, strip_doc, rit_document, as_input) and
    Calc/NegSpec.v (result_neg, totals_neg).  Both rounding rules, every document. *)
 From Coq Require Import ZArith QArith List Bool String Permutation SetoidList SetoidPermutation.
 From Verif Require Import Base.Wire Base.Rha Base.RhaProofs Num.Amount Calc.Doc Calc.Calc Calc.Merge Calc.Symmetry
-  Calc.NegSpec Calc.NegProofs Calc.PermProofs Calc.TaxProofs Calc.PermTaxProofs.
+  Calc.NegSpec Calc.NegProofs Calc.PermProofs Calc.TaxProofs Calc.PermTaxProofs Calc.FixpointGenProofs Calc.RitProofs.
 Import ListNotations.
 Open Scope Z_scope.
 
@@ -176,10 +176,82 @@ Proof.
     split; [vm_compute; reflexivity|]. split; [vm_compute; reflexivity|]. vm_compute. discriminate.
 Qed.
 
-(* RemoveIncludedTaxes: "payable equals the original total with tax" is FALSE of the faithful model
-   (the residue is computed from presented totals but added to the unrounded total) - known finding *)
-Theorem remove_included_taxes_payable_refuted :
-  exists d t0 t, calculate d = Totals t0 /\ remove_included_taxes d = RitDone t /\
+(* ---- RemoveIncludedTaxes (remove_included_taxes d; d1 = the calculated document it finds, strip_doc pit d1 =
+   the document it calculates after taking the tax out of prices and fixed amounts, t1 its totals).
+   Since the repair C17-rit-not-a-fixpoint document discounts / charges are stripped at the precision they are
+   presented with (ddc_strip); the earlier behaviour is kept as remove_included_taxes_shipped.
+
+   Payable after the removal IS the original total with tax (the difference is what totals.rounding records),
+   and the total with tax shown is that of the stripped document, whenever
+     - the stripped document has no fixed amount with more decimals than it is presented with (no_excess_doc,
+       Calc/FixpointGenProofs.v: C04's hypothesis, under which it re-reads to itself), and
+     - same_strict_sign_or_zero: the original and the stripped total with tax are both positive, both negative,
+       or the stripped one is zero. ---- *)
+Theorem remove_included_taxes_payable d t0 d1 t1 t :
+  d_pit d <> [] -> calculate d = Totals t0 -> as_input d = Some d1 ->
+  calculate (strip_doc (d_pit d) d1) = Totals t1 ->
+  no_excess_doc (strip_doc (d_pit d) d1) ->
+  same_strict_sign_or_zero (t_twt t0) (t_twt t1) ->
+  remove_included_taxes d = RitDone t ->
+  t_payable t = t_twt t0 /\ t_twt t = t_twt t1.
+Proof. exact (rit_payable d t0 d1 t1 t). Qed.
+Print Assumptions remove_included_taxes_payable.
+
+(* the same for either way of stripping the document rows, from the fixpoint itself instead of no_excess_doc *)
+Theorem remove_included_taxes_payable_when_stripped_document_is_a_fixpoint ds d t0 d1 t1 t :
+  d_pit d <> [] -> calculate d = Totals t0 -> as_input d = Some d1 ->
+  calculate (strip_doc_with ds (d_pit d) d1) = Totals t1 ->
+  (forall d3, as_input (strip_doc_with ds (d_pit d) d1) = Some d3 -> calculate d3 = calculate (strip_doc_with ds (d_pit d) d1)) ->
+  same_strict_sign_or_zero (t_twt t0) (t_twt t1) ->
+  remove_included_taxes_with ds d = RitDone t ->
+  t_payable t = t_twt t0 /\ t_twt t = t_twt t1.
+Proof. exact (rit_payable_with ds d t0 d1 t1 t). Qed.
+Print Assumptions remove_included_taxes_payable_when_stripped_document_is_a_fixpoint.
+
+(* the first hypothesis, for the document rows, is what the repair establishes: whatever the calculated rows
+   are, a fixed document discount / charge without base comes out of ddc_strip within the currency's precision *)
+Theorem stripped_document_rows_have_no_excess_decimals c pit x a :
+  (opt_nonzero (dd_pct x) = None -> dd_base x = None) ->
+  ddc_no_excess c (ddc_strip pit (ddc_as_input x (present_ddc c x a))).
+Proof. exact (ddc_strip_no_excess c pit x a). Qed.
+Print Assumptions stripped_document_rows_have_no_excess_decimals.
+
+(* ... which the earlier stripping (two extra decimals) did not: 0.38 with 21% included became 0.3140 *)
+Theorem stripped_document_rows_shipped_refuted :
+  exists c pit x a, (opt_nonzero (dd_pct x) = None -> dd_base x = None) /\
+    ~ ddc_no_excess c (ddc_strip_shipped pit (ddc_as_input x (present_ddc c x a))).
+Proof. exact ddc_strip_shipped_excess. Qed.
+Print Assumptions stripped_document_rows_shipped_refuted.
+
+(* the witness of the repaired defect (ES, prices include VAT, precise rule; 3 x 1.00 at 21%, 7 x 1.37 at 10%,
+   discount 0.38 at 21%): hypotheses satisfied, payable 12.21 = original total with tax, total with tax 12.22;
+   and calculating the returned document again gives the same totals *)
+Example remove_included_taxes_example :
+  let vat p := [mkCombo (bs "VAT") [] [] (Some (mkA p 3)) None false []] in
+  let d := mkDoc 2 false (bs "VAT") 3
+             [mkLine (mkA 3 0) (mkItem (mkA 100 2) None []) [] [] [] (vat 210);
+              mkLine (mkA 7 0) (mkItem (mkA 137 2) None []) [] [] [] (vat 100)]
+             [mkDdc (mkA 38 2) None None (vat 210)] [] [] [] [] None in
+  exists t0 d1 t1 t d',
+    d_pit d <> [] /\ calculate d = Totals t0 /\ as_input d = Some d1 /\
+    calculate (strip_doc (d_pit d) d1) = Totals t1 /\ no_excess_doc (strip_doc (d_pit d) d1) /\
+    same_strict_sign_or_zero (t_twt t0) (t_twt t1) /\ remove_included_taxes d = RitDone t /\
+    t_twt t0 = mkA 1221 2 /\ t_payable t = mkA 1221 2 /\ t_twt t = mkA 1222 2 /\
+    rit_document d = Some d' /\ calculate d' = Totals t.
+Proof. exact rit_example. Qed.
+
+(* the earlier behaviour on the same document: the returned document is NOT a fixpoint (total 10.88 becomes
+   10.89, payable 12.21 becomes 12.22 when it is calculated again) *)
+Theorem remove_included_taxes_shipped_fixpoint_refuted :
+  exists d t d' t', remove_included_taxes_shipped d = RitDone t /\ rit_document_shipped d = Some d' /\
+                    calculate d' = Totals t' /\ t_total t <> t_total t' /\ t_payable t <> t_payable t'.
+Proof. exact rit_shipped_not_fixpoint. Qed.
+Print Assumptions remove_included_taxes_shipped_fixpoint_refuted.
+
+(* ... and its payable could miss the original total with tax by a minor unit (the former witness of
+   C17-rit-residue: the stripped charge 6105 / 1.24 = 4923.39 is presented, and recalculated, as 4923) *)
+Theorem remove_included_taxes_shipped_payable_refuted :
+  exists d t0 t, calculate d = Totals t0 /\ remove_included_taxes_shipped d = RitDone t /\
                  equals (t_payable t) (t_twt t0) = false.
 Proof.
   exists (mkDoc 0 false (bs "VAT") 1
@@ -190,7 +262,35 @@ Proof.
             [] [] [] None).
   eexists. eexists. split; [vm_compute; reflexivity|]. split; [vm_compute; reflexivity|]. vm_compute. reflexivity.
 Qed.
+Print Assumptions remove_included_taxes_shipped_payable_refuted.
+
+(* FULL STATEMENT "payable equals the original total with tax" is still FALSE of the faithful model, exactly
+   outside the sign hypothesis: the residue is a whole number of minor units added BEFORE rounding, and
+   rounding half away from zero is not invariant under a shift that crosses zero.  JPY, 1 x 3 at 0%,
+   discount 3 at 25% included: original total with tax 0; stripped: 3.00 - 2 - 0.50 = 0.50, presented as 1;
+   residue -1; payable = round(0.50 - 1) = -1.  Known finding C17-rit-residue. *)
+Theorem remove_included_taxes_payable_refuted :
+  exists d t0 t, calculate d = Totals t0 /\ remove_included_taxes d = RitDone t /\
+                 equals (t_payable t) (t_twt t0) = false.
+Proof.
+  exists (mkDoc 0 false (bs "VAT") 5
+            [mkLine (mkA 1 0) (mkItem (mkA 3 0) None []) [] [] [] [mkCombo (bs "VAT") [] [] (Some (mkA 0 2)) None false []]]
+            [mkDdc (mkA 3 0) None None [mkCombo (bs "VAT") [] [] (Some (mkA 25 2)) None false []]]
+            [] [] [] [] None).
+  eexists. eexists. split; [vm_compute; reflexivity|]. split; [vm_compute; reflexivity|]. vm_compute. reflexivity.
+Qed.
 Print Assumptions remove_included_taxes_payable_refuted.
+
+(* the arithmetic behind it *)
+Theorem residue_added_before_rounding_restores_the_target n d T : 0 < d ->
+  (0 < T /\ 0 < rha n d) \/ (T < 0 /\ rha n d < 0) \/ rha n d = 0 ->
+  rha (n + (T - rha n d) * d) d = T.
+Proof. exact (rha_retarget n d T). Qed.
+Print Assumptions residue_added_before_rounding_restores_the_target.
+
+Theorem residue_added_before_rounding_without_sign_hypothesis_refuted : rha (5 + (0 - rha 5 10) * 10) 10 <> 0.
+Proof. exact rha_retarget_refuted. Qed.
+Print Assumptions residue_added_before_rounding_without_sign_hypothesis_refuted.
 
 (* non-vacuity: a document with ties, a discount with base and a rate charge with explicit quantity *)
 Example negation_example :
